@@ -8,6 +8,8 @@ Sub-checks
           is a fixed point.
   cast  : for (source type S, valid lexical, target type T): 'castable as', 'cast as' and xs:T(.) agree on success
           and value; success and value follow the F&O casting table / rules (reference: xsdlex.cast_ref).
+  matrix: the complete source type x target type grid (46 x 46 cells, source literals that are valid literals of the
+          target where possible, e.g. xs:anyURI('12') -> xs:integer): three-way agreement and table success / failure.
   decstr: xs:decimal values of tiny / huge magnitude, with python exponent representations (Decimal('1E-7'),
           Decimal('1.2E+4'), trailing zeros) and computed ones (products, round-half-to-even, casts from double) through
           xs:string / string / cast as / xs:untypedAtomic / concat / string-join / xs:token: canonical xs:decimal
@@ -120,6 +122,43 @@ def _expand_decstr(mx):
     xp = '3.1' if 'string-join' in path else mx.pick(['2.0', '3.1'])
     return {'d': d, 'e': e, 'x': mx.pick(_DEC_DOUBLES), 'i': mx.pick([3, 10, 1000, -7]), 'src': src, 'path': path,
             'cls': cls, 'ver': mx.pick(['1.0', '1.1']), 'xp': xp}
+
+
+# ---- the complete source type x target type grid (finite: enumerated, not sampled) ---------------------------
+MATRIX_TYPES = [t for t in G.ALL_TYPES]
+#: canonical-looking sample literals per type; the grid pairs every source type S with every target type T and picks
+#: source literals whose string form is (when possible) a valid literal of T
+SAMPLE_LITERALS = {
+    'string': ['12', 'abc'], 'normalizedString': ['12', 'a b'], 'token': ['12', 'abc'], 'language': ['en', 'P1D'],
+    'NMTOKEN': ['12', '2000-01-01'], 'Name': ['abc', 'P1D'], 'NCName': ['abc', 'true'], 'ID': ['abc'], 'IDREF': ['abc'],
+    'ENTITY': ['abc'], 'untypedAtomic': ['12', 'abc'], 'anyURI': ['12', 'http://example.com/a'], 'QName': ['xs:int'],
+    'boolean': ['true', '0'], 'decimal': ['12', '1.5', '-3'], 'double': ['12', '1.5', 'NaN', '-3'], 'float': ['12', '0.5', 'INF', '-3'],
+    'duration': ['P1Y2M3DT4H5M6S', 'P1Y', 'PT1H'], 'yearMonthDuration': ['P1Y2M'], 'dayTimeDuration': ['P1DT2H', 'PT0S'],
+    'dateTime': ['2000-01-02T03:04:05Z', '1999-12-31T23:59:59.5'], 'dateTimeStamp': ['2000-01-02T03:04:05Z'],
+    'date': ['2000-01-02Z', '1999-12-31'], 'time': ['03:04:05Z', '23:59:59.5'], 'gYearMonth': ['2000-01'], 'gYear': ['2000', '1999Z'],
+    'gMonthDay': ['--01-02'], 'gDay': ['---02'], 'gMonth': ['--01'], 'hexBinary': ['0FB7', '12'], 'base64Binary': ['AQID', 'abcd'],
+}
+for _t in G.INTEGER_TYPES:
+    SAMPLE_LITERALS[_t] = ['-3', '-1'] if _t in ('negativeInteger', 'nonPositiveInteger') else ['12', '1', '0'] if _t != 'positiveInteger' else ['12', '1']
+
+
+def matrix_cases() -> list:
+    """every (S, T) cell with up to 3 source literals, both XSD versions, both XPath versions (deterministic order)"""
+    out = []
+    for S in MATRIX_TYPES:
+        for T in MATRIX_TYPES:
+            if T == 'QName' and S != 'QName':
+                continue            # cast to QName depends on the XPath version and the static namespaces
+            cands = []
+            for lit in SAMPLE_LITERALS[T] + SAMPLE_LITERALS[S]:
+                if lit not in cands and X.is_valid(S, lit, '1.1') is True:
+                    cands.append(lit)
+            for k, lit in enumerate(cands[:3]):
+                for ver in ('1.0', '1.1'):
+                    if 'dateTimeStamp' in (S, T) and ver == '1.0':
+                        continue
+                    out.append({'S': S, 'lex': lit, 'T': T, 'ver': ver, 'xp': '2.0' if (k + len(out)) % 2 else '3.1', 'how': 'matrix'})
+    return out
 
 
 def expand(check, pool):
@@ -652,6 +691,8 @@ def judge_cast_case(case, rec: Recorder | None = None) -> list[Disc]:
                     discs.append(Disc(f'C10/three-way/castable-vs-cast/{pair}', f'castable={ok_cast}', f'castable={r_castable} cast={r_cast!r}', detail))
                 if ok_cast != ok_ctor:
                     discs.append(Disc(f'C10/three-way/cast-vs-constructor/{pair}', repr(r_cast), repr(r_ctor), detail))
+                    if expected is not None and expected[0] == 'error' and ok_ctor and X.table_class(S) not in ('str', 'uA'):
+                        discs.append(Disc(f'C10/cast/constructor-accepts-{expected[1]}/{pair}', 'error', repr(r_ctor), detail))
                 elif ok_cast:
                     n1, v1 = lift(r_cast, ver)
                     n2, v2 = lift(r_ctor, ver)
@@ -770,7 +811,8 @@ def judge_decstr_case(case, rec: Recorder | None = None) -> list[Disc]:
 # --------------------------------------------------------------------------
 # module interface
 # --------------------------------------------------------------------------
-_CASE_JUDGES = {'lex': judge_lex_case, 'canon': judge_canon_case, 'cast': judge_cast_case, 'decstr': judge_decstr_case}
+_CASE_JUDGES = {'lex': judge_lex_case, 'canon': judge_canon_case, 'cast': judge_cast_case, 'decstr': judge_decstr_case,
+                'matrix': judge_cast_case}
 
 
 def _judge(check, case, rec=None):
@@ -807,22 +849,42 @@ def selftest():
 
 def jobs(tier, seed):
     q = tier == 'quick'
-    plan = {'lex': (6, 900 if q else 8000), 'canon': (3, 700 if q else 6000), 'cast': (5, 700 if q else 6000),
+    plan = {'lex': (5, 1000 if q else 9000), 'canon': (3, 700 if q else 6000), 'cast': (4, 800 if q else 7000),
             'decstr': (2, 700 if q else 6000)}
     out = []
     for chk, (shards, n) in plan.items():
         for i in range(shards):
             out.append({'check': chk, 'shard': i, 'n': n, 'seed': derive_seed(seed, 'C10', chk, i)})
+    for i in range(MATRIX_SHARDS):        # the finite S x T grid is enumerated completely in every tier
+        out.append({'check': 'matrix', 'shard': i, 'of': MATRIX_SHARDS})
     return out
+
+
+MATRIX_SHARDS = 2
+EXHAUSTIVE_NOTE = ('sub-check matrix: the complete grid of 46 source types x 46 target types (casts to QName only from QName) is '
+                   'enumerated with up to 3 source literals per cell chosen so that the string form is a valid literal of the '
+                   'target where the source type allows it, x XSD 1.0/1.1; all other sub-checks are sampled')
 
 
 def run_job(job, rec: Recorder):
     chk = job['check']
+    if chk == 'matrix':
+        for case in matrix_cases()[job['shard']::job['of']]:
+            ds = judge_cast_case(case, rec)
+            rec.discs_of('matrix', case, ds)
+            rec.cls('matrix:cell-case')
+        return
     hyp_collect(pool_strategy, lambda case: _judge(chk, case, rec), job['n'], job['seed'], rec)
 
 
 def shrink_job(job, bucket, budget):
     chk = job['check']
+    if chk == 'matrix':
+        for case in matrix_cases()[job['shard']::job['of']]:
+            for d in judge_cast_case(case):
+                if d.bucket == bucket:
+                    return case, d
+        return None
     got = hyp_shrink(pool_strategy, lambda case: _judge(chk, case), bucket, job['n'], job['seed'], budget)
     if got is None:
         return None
